@@ -208,7 +208,11 @@ func (r *Run) Finish() {
 		}
 	}
 	if r.Replay || res.Viol != nil {
-		for _, e := range s.Tail(120) {
+		nTail := 120
+		if r.Replay {
+			nTail = 5000
+		}
+		for _, e := range s.Tail(nTail) {
 			res.Trace = append(res.Trace, fmt.Sprintf("%d %s @%s", e.Step, e.G, e.Site))
 		}
 		res.Trace = append(res.Trace, r.log...)
